@@ -11,7 +11,7 @@ need=0
 [ -x ../bin/model_driver ] || need=1
 [ -f ../ocaml/model.ml ] || need=1
 if [ $need = 0 ]; then
-  if [ -n "$(find . -name '*.vo' -newer ../ocaml/model.ml | head -1)" ] || [ ../ocaml/driver.ml -nt ../bin/model_driver ]; then need=1; fi
+  if [ -n "$(find . -name '*.vo' -newer ../ocaml/model.ml -not -path './Props/*' -not -path './Proofs/*' | head -1)" ] || [ ../ocaml/driver.ml -nt ../bin/model_driver ]; then need=1; fi
 fi
 if [ $need = 1 ]; then
   timeout 600 coqc -Q . AV Extract.v >/dev/null
